@@ -24,7 +24,7 @@ RULE = ('(a) round_up_str_num: ALL strings [integer part: every string of 0-4 di
         'non-trivial = (a) a carry into the integer part or an empty/zero-led integer part, (b) a duration within 10^-prec of '
         'a minute/hour boundary or with a residue below 1e-4, (c) a text with >= 2 fields; distinct inputs')
 ASSUMPTIONS = ['"noise beyond the fifth decimal" is given the stated tolerance 1e-5 on the lower bound of (b)',
-               'float results of parse_hms are compared with the exact sexagesimal sum to 1e-9 relative']
+               'float results of parse_hms are compared with the exact sexagesimal sum to 8 units in the last place']
 RULE = RULE + '; also fields dressed the way int() tolerates, fields beyond 2**53 and of hundreds of digits, number carriers of parse_hms, int durations at every precision and left-out precisions'
 
 FRAC_DIGITS = '01459'
@@ -271,8 +271,11 @@ def examine_parse(case):
                 out.append(V('parse-exact', ['parse', 'float-value', 'not-finite'], case, repr(r[1]), str(exact)))
         else:
             got = Fraction(r[1])
-            if abs(got - exact) > abs(exact) * Fraction(1, 10 ** 9) + Fraction(1, 10 ** 12):
-                out.append(V('parse-exact', ['parse', 'float-value'], case, r[1], str(exact)))
+            # "the exact sexagesimal value": the nearest doubles - a sum of at most four fields formed in floating point may
+            # be a few units in the last place off, not more (a value settled at some decimal place is not the value written)
+            tol = 8 * Fraction(math.ulp(float(exact))) if exact < Fraction(10) ** 300 else abs(exact) * Fraction(1, 10 ** 9)
+            if abs(got - exact) > tol:
+                out.append(V('parse-exact', ['parse', 'float-value'], case, repr(r[1]), str(exact)))
     return out
 
 
@@ -285,10 +288,12 @@ def gen_structured(rng):
         f = str(rng.randrange(0, 100)) if k < 5 else ('%02d' % rng.randrange(60)) if k < 6 else str(rng.randrange(0, 100000))
         k = rng.randrange(6)
         if k == 0:
-            f += '.' + ''.join(rng.choice('0123456789') for _ in range(rng.randrange(0, 5)))
+            f += '.' + ''.join(rng.choice('0123456789') for _ in range(rng.randrange(0, 5) if rng.randrange(3) else rng.randrange(5, 14)))
         fs.append(f)
     if rng.randrange(3) == 0:
-        fs[-1] = fs[-1].split('.')[0] + '.' + ''.join(rng.choice('0123456789') for _ in range(rng.randrange(1, 4)))
+        # (now and then far more decimals than any stopwatch gives: the value written is still the value)
+        nd = rng.randrange(1, 4) if rng.randrange(4) else rng.randrange(4, 16)
+        fs[-1] = fs[-1].split('.')[0] + '.' + ''.join(rng.choice('0123456789') for _ in range(nd))
     if rng.randrange(8) == 0:
         # fields dressed the way int() / float() tolerate: plus sign, blanks, trailing newline; now and then beyond 2**53
         i = rng.randrange(len(fs))
